@@ -37,6 +37,10 @@ var ErrNotDirectory = errors.New("not directory")
 
 // IsValidFileName checks if a file name is cross-platform compatible
 func IsValidFileName(fileName string) bool {
+	if fileName == "." || fileName == ".." {
+		// "." and ".." name directories, not files
+		return false
+	}
 	return regexp.MustCompile(`^[a-zA-Z0-9_.-]+$`).MatchString(fileName)
 }
 
